@@ -1373,10 +1373,10 @@ class TexArgs(list):
         self.all.remove(item)
         super().remove(item)
 
-    def pop(self, i):
+    def pop(self, i=-1):
         """Pop argument object at provided index.
 
-        :param int i: Index to pop from the list
+        :param int i: Index to pop from the list (default: the last one)
 
         >>> arguments = TexArgs([BraceGroup('arg0'), '[arg2]', '{arg3}'])
         >>> arguments.pop(1)
@@ -1387,7 +1387,7 @@ class TexArgs(list):
         BraceGroup('arg0')
         """
         item = super().pop(i)
-        j = self.all.index(item)
+        j = self.__index_all(item)
         return self.all.pop(j)
 
     def reverse(self):
